@@ -44,6 +44,22 @@ func TestRtpHeaderVectors(t *testing.T) {
 	eq(t, "hdr", Pkt{PT: 127, Marker: true, Seq: 65535, TS: 0, SSRC: 0}.Marshal(), "80 ff ffff 00000000 00000000")
 }
 
+func TestRtpHeaderExtrasVectors(t *testing.T) {
+	// RFC 3550 §5.1: CC=2 -> 0x82; §5.3.1: X -> 0x10, length counted in 32-bit words
+	eq(t, "csrc", Pkt{PT: 96, Seq: 1, TS: 2, SSRC: 3, CSRC: []uint32{0xa1a2a3a4, 0xb1b2b3b4}, Payload: []byte{0x65}}.Marshal(),
+		"82 60 0001 00000002 00000003 a1a2a3a4 b1b2b3b4 65")
+	// ONVIF replay extension: profile 0xABAC, 3 words
+	eq(t, "onvif", Pkt{PT: 96, Marker: true, Seq: 1, TS: 2, SSRC: 3, HasExt: true, ExtProfile: 0xabac,
+		Ext: hx(t, "e1e2e3e4 00000000 40000000"), Payload: []byte{0x41, 0x9a}}.Marshal(),
+		"90 e0 0001 00000002 00000003 abac 0003 e1e2e3e4 00000000 40000000 419a")
+	// empty extension: X set, length 0
+	eq(t, "ext0", Pkt{PT: 97, Seq: 1, TS: 2, SSRC: 3, HasExt: true, ExtProfile: 0xbede, Payload: []byte{9}}.Marshal(),
+		"90 61 0001 00000002 00000003 bede 0000 09")
+	// CSRC list comes before the extension
+	eq(t, "both", Pkt{PT: 96, Seq: 1, TS: 2, SSRC: 3, CSRC: []uint32{7}, HasExt: true, ExtProfile: 0x1000, Ext: hx(t, "05021122"), Payload: []byte{9}}.Marshal(),
+		"91 60 0001 00000002 00000003 00000007 1000 0001 05021122 09")
+}
+
 func TestH264Vectors(t *testing.T) {
 	// §5.6
 	eq(t, "single", H264Single(hx(t, "09 f0")), "09 f0")
@@ -259,6 +275,13 @@ func TestToIpchub(t *testing.T) {
 	}
 	if !bytes.Equal(p.Payload(), []byte{0x65, 1, 2}) || !bytes.Equal(p.Data, raw) {
 		t.Fatalf("payload %x", p.Payload())
+	}
+	// the header is parsed by ipchub itself: CSRC list and header extension are skipped
+	x := Pkt{PT: 96, Seq: 9, TS: 10, SSRC: 11, CSRC: []uint32{1, 2, 3}, HasExt: true, ExtProfile: 0xabac,
+		Ext: bytes.Repeat([]byte{0xee}, 12), Payload: []byte{0x41, 0x9a, 0x00}}
+	q := ToIpchub(0, x.Marshal())
+	if q.SequenceNumber != 9 || q.Timestamp != 10 || !bytes.Equal(q.Payload(), x.Payload) || x.HeaderLen() != 12+12+4+12 {
+		t.Fatalf("extras: payload %x header %+v", q.Payload(), q.Header)
 	}
 	sr := SenderReport(1, 2, 3, 4, 5, 6)
 	c := ToIpchub(1, sr)
